@@ -114,7 +114,7 @@ func (c *Ctx) rulesC02(a *coreAnchors) {
 	pr := c.fn(pm + ":DefaultRelationsResolver.parseRequire")
 	pa := c.fn(pm + ":DefaultRelationsResolver.parseAdd")
 	if ts != nil && pr != nil && pa != nil {
-		for i, r := range returnsOf(ts) {
+		for i, r := range c.effectiveReturns(ts) {
 			v := retVals(r)[0]
 			call, ok := v.(*ssa.Call)
 			good := ok && call.Call.StaticCallee() == pr
@@ -188,18 +188,40 @@ func (c *Ctx) rulesC02(a *coreAnchors) {
 			return false
 		}
 		nf := 0
-		for i, s := range c.sitesIn(ts, funcKey(pa)) {
-			v := s.Value()
+		for i, s0 := range c.innerSites(ts, funcKey(pa)) {
+			s := ssa.Instruction(s0)
+			v := s0.Value()
 			filtered := false
-			for _, b := range ts.Blocks {
-				for _, ins := range b.Instrs {
-					ci, ok := ins.(ssa.CallInstruction)
-					if !ok || !isRemoveFilter(ci) {
-						continue
+			scan := func() {
+				for _, b := range s.Parent().Blocks {
+					for _, ins := range b.Instrs {
+						ci, ok := ins.(ssa.CallInstruction)
+						if !ok || !isRemoveFilter(ci) {
+							continue
+						}
+						nf++
+						if dominatesInstr(s, ci) && derives(ci.Common().Args[0], func(x ssa.Value) bool { return x == ssa.Value(v) }) {
+							filtered = true
+						}
 					}
-					nf++
-					if dominatesInstr(s, ci) && derives(ci.Common().Args[0], func(x ssa.Value) bool { return x == ssa.Value(v) }) {
-						filtered = true
+				}
+			}
+			scan()
+			// a phase whose result carries the parseAdd value unfiltered: go on
+			// from the phase's call in TargetStates
+			if g := s.Parent(); !filtered && g != ts && g.Parent() == nil && c.isPhaseOf(g, ts) {
+				carries := false
+				for _, r := range returnsOf(g) {
+					for _, rv := range retVals(r) {
+						if derives(rv, func(x ssa.Value) bool { return x == ssa.Value(v) }) {
+							carries = true
+						}
+					}
+				}
+				if sites, _ := c.hostSites(g, true); carries && len(sites) == 1 {
+					if cv, ok := sites[0].Instr.(*ssa.Call); ok {
+						s, v = sites[0].Instr, cv
+						scan()
 					}
 				}
 			}
@@ -835,4 +857,32 @@ func elemOfField(v ssa.Value, fld *types.Var, d int) bool {
 		return elemOfField(x.X, fld, d+1)
 	}
 	return false
+}
+
+// effectiveReturns: the returns of f; a return that hands back the (single)
+// result of a private helper hosted by f is replaced by that helper's returns.
+func (c *Ctx) effectiveReturns(f *ssa.Function) []*ssa.Return {
+	var out []*ssa.Return
+	var add func(g *ssa.Function, d int)
+	add = func(g *ssa.Function, d int) {
+		for _, r := range returnsOf(g) {
+			if len(r.Results) == 1 && d < 3 {
+				if call, ok := retVals(r)[0].(*ssa.Call); ok {
+					if cal := call.Call.StaticCallee(); cal != nil && cal != f && cal != g && len(cal.Blocks) > 0 && cal.Signature.Results().Len() == 1 && c.hostedBy(cal, f) && c.isPhaseOf(cal, f) {
+						add(cal, d+1)
+						continue
+					}
+				}
+			}
+			out = append(out, r)
+		}
+	}
+	add(f, 0)
+	return out
+}
+
+// isPhaseOf: cal is called from f itself (not only from something f hosts).
+func (c *Ctx) isPhaseOf(cal, f *ssa.Function) bool {
+	sites, host := c.hostSites(cal, true)
+	return host == f && len(sites) == 1
 }
